@@ -87,6 +87,8 @@ type ineq struct {
 }
 
 type proverCtx struct {
+	nilKnown  map[ssa.Value]bool // error/pointer values known nil (true) / non-nil (false) at the site
+	subst     map[ssa.Value]ssa.Value
 	siteBlock map[*ssa.Function]*ssa.BasicBlock
 	block     *ssa.BasicBlock
 	c         *Ctx
@@ -138,9 +140,37 @@ func intBits(t types.Type) int {
 
 // varFor registers the intrinsic facts of a variable the first time it is used.
 func (p *proverCtx) varFor(lv lvar) *linexp {
+	if s, ok := p.subst[lv.v]; ok && (lv.kind == 'l' || lv.kind == 'c' || lv.kind == 'v') {
+		if lv.kind == 'v' {
+			return p.lin(s)
+		}
+		lv.v = s
+	}
+	// len/cap of a load of a stable field: all loads of base.f denote the same slice
+	if lv.kind == 'l' || lv.kind == 'c' {
+		if ld, ok := lv.v.(*ssa.UnOp); ok && ld.Op == token.MUL {
+			if fa, ok := ld.X.(*ssa.FieldAddr); ok && p.stableField(fa) {
+				k := byte('L')
+				if lv.kind == 'c' {
+					k = 'C'
+				}
+				lv = lvar{v: fa.X, kind: k, idx: fa.Field}
+			}
+		}
+	}
 	if !p.seenVar[lv] {
 		p.seenVar[lv] = true
 		switch lv.kind {
+		case 'L':
+			p.addFact(linVar(lv), "len>=0")
+			if ft := fieldType(lv.v.Type(), lv.idx); ft != nil {
+				if n, ok := arrayLen(ft); ok {
+					p.addFact(linVar(lv).addConst(-n), "len(array)")
+					p.addFact(linVar(lv).scale(-1).addConst(n), "len(array)")
+				}
+			}
+		case 'C':
+			p.addFact(linVar(lv).sub(p.varFor(lvar{v: lv.v, kind: 'L', idx: lv.idx})), "cap>=len")
 		case 'l':
 			p.addFact(linVar(lv), "len>=0")
 			// len of a fixed array / pointer to array is a constant
@@ -250,10 +280,45 @@ func (p *proverCtx) lenDefs(lv lvar) {
 		}
 		// library results with a documented length
 		switch callQName(&x.Call) {
-		case "crypto/sha256.Sum256":
+		case "strings.Repeat":
+			if one := p.varFor(lvar{v: x.Call.Args[0], kind: 'l'}); one != nil {
+				if s, ok := constString(x.Call.Args[0]); ok && len(s) == 1 {
+					n := p.lin(x.Call.Args[1])
+					p.addFact(linVar(lv).sub(n), "len(strings.Repeat(1 char, n)) = n")
+					p.addFact(n.sub(linVar(lv)), "len(strings.Repeat(1 char, n)) = n")
+				}
+			}
 		}
 	case *ssa.Phi:
 		p.consumingLoop(x)
+	case *ssa.BinOp:
+		if x.Op == token.ADD && isStringOrBytes(x.Type()) {
+			s := p.varFor(lvar{v: x.X, kind: 'l'}).add(p.varFor(lvar{v: x.Y, kind: 'l'}))
+			p.addFact(linVar(lv).sub(s), "len(concat)")
+			p.addFact(s.sub(linVar(lv)), "len(concat)")
+		}
+	case *ssa.Extract:
+		cl, ok := x.Tuple.(*ssa.Call)
+		if !ok {
+			return
+		}
+		sc := cl.Call.StaticCallee()
+		if sc == nil || !inModule(sc) {
+			return
+		}
+		ei := errIndex(sc.Signature)
+		if ei < 0 || ei == x.Index {
+			return
+		}
+		// only when the call's error is known to be nil here
+		for _, r := range realRefs(cl) {
+			if ex, ok := r.(*ssa.Extract); ok && ex.Index == ei && p.nilKnown[ex] {
+				if k, ok := p.c.resultLen(origin(sc), x.Index); ok {
+					p.addFact(linVar(lv).addConst(-k), "summary: len(result) of "+fnName(sc)+" on success")
+					p.addFact(linVar(lv).scale(-1).addConst(k), "summary: len(result) of "+fnName(sc)+" on success")
+				}
+			}
+		}
 	}
 }
 
@@ -426,6 +491,9 @@ func (p *proverCtx) nonneg(v ssa.Value) bool {
 
 // lin translates an SSA integer value into a linear expression over prover variables.
 func (p *proverCtx) lin(v ssa.Value) *linexp {
+	if s, ok := p.subst[v]; ok {
+		return p.lin(s)
+	}
 	if k, ok := constInt(v); ok {
 		return linConst(k)
 	}
@@ -482,6 +550,13 @@ func (p *proverCtx) lin(v ssa.Value) *linexp {
 				return p.varFor(lvar{v: x.Call.Args[0], kind: 'c'})
 			}
 		}
+		switch callQName(&x.Call) {
+		case "strings.IndexByte", "strings.Index", "strings.IndexRune", "strings.LastIndex", "strings.LastIndexByte", "bytes.IndexByte", "bytes.Index":
+			e := p.varFor(lvar{v: v, kind: 'v'})
+			p.addFact(e.addConst(1), "Index* >= -1")
+			p.addFact(p.varFor(lvar{v: x.Call.Args[0], kind: 'l'}).sub(e).addConst(-1), "Index* < len")
+			return e
+		}
 		if lo, hi, ok := libRange(callQName(&x.Call)); ok {
 			e := p.varFor(lvar{v: v, kind: 'v'})
 			p.addFact(e.addConst(-lo), "library range")
@@ -525,6 +600,20 @@ func (p *proverCtx) lin(v ssa.Value) *linexp {
 		}
 	case *ssa.ChangeType:
 		return p.lin(x.X)
+	case *ssa.Extract:
+		if cl, ok := x.Tuple.(*ssa.Call); ok && isInteger(x.Type()) {
+			if sc := cl.Call.StaticCallee(); sc != nil && inModule(sc) {
+				e := p.varFor(lvar{v: v, kind: 'v'})
+				lo, hi, hasLo, hasHi := p.c.resultRange(origin(sc), x.Index)
+				if hasLo {
+					p.addFact(e.addConst(-lo), "summary: "+fnName(sc)+" returns >= "+fmt.Sprint(lo))
+				}
+				if hasHi {
+					p.addFact(e.scale(-1).addConst(hi), "summary: "+fnName(sc)+" returns <= "+fmt.Sprint(hi))
+				}
+				return e
+			}
+		}
 	}
 	return p.varFor(lvar{v: v, kind: 'v'})
 }
@@ -587,8 +676,18 @@ func (p *proverCtx) stableField(fa *ssa.FieldAddr) bool {
 	if okk {
 		if refs := fa.X.Referrers(); refs != nil {
 			for _, r := range *refs {
-				switch r.(type) {
+				switch x := r.(type) {
 				case *ssa.FieldAddr, *ssa.BinOp, *ssa.If, *ssa.DebugRef:
+				case *ssa.Store:
+					// the single initialising store of a by-value parameter / local into its slot
+					if _, isAlloc := fa.X.(*ssa.Alloc); !(isAlloc && x.Addr == fa.X && x.Block().Index == 0) {
+						okk = false
+					}
+				case *ssa.UnOp:
+					// loading the whole struct (to copy it) does not modify it
+					if x.Op != token.MUL {
+						okk = false
+					}
 				default:
 					okk = false
 				}
@@ -601,6 +700,15 @@ func (p *proverCtx) stableField(fa *ssa.FieldAddr) bool {
 
 // condFacts turns a branch condition (taken with the given truth) into linear facts.
 func (p *proverCtx) condFacts(cond ssa.Value, truth bool, why string) {
+	if cl, ok := cond.(*ssa.Call); ok && truth {
+		switch callQName(&cl.Call) {
+		case "strings.HasPrefix", "strings.HasSuffix", "bytes.HasPrefix", "bytes.HasSuffix":
+			a := p.varFor(lvar{v: cl.Call.Args[0], kind: 'l'})
+			b := p.varFor(lvar{v: cl.Call.Args[1], kind: 'l'})
+			p.addFact(a.sub(b), why+" (has prefix/suffix => at least as long)")
+		}
+		return
+	}
 	switch x := cond.(type) {
 	case *ssa.UnOp:
 		if x.Op == token.NOT {
@@ -608,6 +716,17 @@ func (p *proverCtx) condFacts(cond ssa.Value, truth bool, why string) {
 		}
 		return
 	case *ssa.BinOp:
+		if (x.Op == token.EQL || x.Op == token.NEQ) && (isNilConst(x.X) || isNilConst(x.Y)) {
+			v := x.X
+			if isNilConst(x.X) {
+				v = x.Y
+			}
+			if p.nilKnown == nil {
+				p.nilKnown = map[ssa.Value]bool{}
+			}
+			p.nilKnown[v] = (x.Op == token.EQL) == truth
+			return
+		}
 		if !isInteger(x.X.Type()) {
 			return
 		}
@@ -643,6 +762,17 @@ func (p *proverCtx) condFacts(cond ssa.Value, truth bool, why string) {
 		case token.EQL:
 			p.addFact(a.sub(b), why)
 			p.addFact(b.sub(a), why)
+		case token.NEQ:
+			// a != b with a >= b known gives a >= b+1 (and symmetrically); typical: len(x) != 0
+			if p.depth < 2 {
+				p.depth++
+				if p.prove(a.sub(b)) {
+					p.addFact(a.sub(b).addConst(-1), why+" (!= with >= known)")
+				} else if p.prove(b.sub(a)) {
+					p.addFact(b.sub(a).addConst(-1), why+" (!= with <= known)")
+				}
+				p.depth--
+			}
 		}
 	}
 }
@@ -826,6 +956,10 @@ func (e *linexp) String() string {
 			name = v.v.Name()
 		}
 		switch v.kind {
+		case 'L':
+			name = fmt.Sprintf("len(%s.f%d)", name, v.idx)
+		case 'C':
+			name = fmt.Sprintf("cap(%s.f%d)", name, v.idx)
 		case 'l':
 			name = "len(" + name + ")"
 		case 'c':
@@ -1082,4 +1216,105 @@ func forwardedStore(ld *ssa.UnOp) ssa.Value {
 		}
 	}
 	return val
+}
+
+// phiSplit: when a goal mentions a two-way (non loop-header) phi, prove it separately for each
+// incoming edge, with the phi replaced by that edge's value and the facts of the predecessor
+// (including the branch taken to reach the phi's block).
+func (c *Ctx) phiSplit(f *ssa.Function, b *ssa.BasicBlock, g siteGoal) bool {
+	p := c.newProver(f, b)
+	var phis []*ssa.Phi
+	seen := map[*ssa.Phi]bool{}
+	for _, gl := range g.build(p) {
+		for v := range gl.co {
+			if ph, ok := v.v.(*ssa.Phi); ok && (v.kind == 'v' || v.kind == 'l' || v.kind == 'c') && !seen[ph] && ph.Parent() == f {
+				seen[ph] = true
+				phis = append(phis, ph)
+			}
+		}
+	}
+	for _, ph := range phis {
+		// skip loop-carried phis (an edge value depends on the phi itself)
+		loop := false
+		for _, e := range ph.Edges {
+			if derivesFrom(e, func(v ssa.Value) bool { return v == ssa.Value(ph) }, false) {
+				loop = true
+			}
+		}
+		if loop || !ph.Block().Dominates(b) {
+			continue
+		}
+		all := true
+		for i, e := range ph.Edges {
+			pred := ph.Block().Preds[i]
+			q := c.newProver(f, pred)
+			// facts of the site itself still hold (b is dominated by the phi's block)
+			for _, ft := range factsAt(f, b) {
+				q.condFacts(ft.Cond, ft.Truth, "branch")
+			}
+			if ifi := lastIf(pred); ifi != nil && pred.Succs[0] != pred.Succs[1] {
+				q.condFacts(ifi.Cond, pred.Succs[0] == ph.Block(), "edge into phi")
+			}
+			q.subst = map[ssa.Value]ssa.Value{ph: e}
+			if !proveAll(q, g) {
+				all = false
+				break
+			}
+		}
+		if all {
+			return true
+		}
+	}
+	return false
+}
+
+// resultLen: the constant length of slice/string result #idx of f on every exit that is not a
+// definite failure (memoised).
+func (c *Ctx) resultLen(f *ssa.Function, idx int) (int64, bool) {
+	type key struct {
+		f *ssa.Function
+		i int
+	}
+	if c.lenMemo == nil {
+		c.lenMemo = map[any][2]int64{}
+	}
+	if r, ok := c.lenMemo[key{f, idx}]; ok {
+		return r[0], r[1] == 1
+	}
+	c.lenMemo[key{f, idx}] = [2]int64{0, 0}
+	ei := errIndex(f.Signature)
+	var k int64 = -1
+	okAll := true
+	n := 0
+	for _, r := range returnsOf(f) {
+		if idx >= len(r.Results) {
+			okAll = false
+			break
+		}
+		if ei >= 0 && isFailureValue(f, retVal(r, ei), r.Block()) {
+			continue
+		}
+		n++
+		p := c.newProver(f, r.Block())
+		e := p.varFor(lvar{v: retVal(r, idx), kind: 'l'})
+		found := false
+		for _, cand := range []int64{0, 1, 2, 4, 8, 12, 16, 20, 24, 28, 32, 33, 36, 48, 64} {
+			if p.prove(e.addConst(-cand)) && p.prove(e.scale(-1).addConst(cand)) {
+				if k >= 0 && k != cand {
+					okAll = false
+				}
+				k = cand
+				found = true
+				break
+			}
+		}
+		if !found {
+			okAll = false
+		}
+	}
+	if !okAll || n == 0 || k < 0 {
+		return 0, false
+	}
+	c.lenMemo[key{f, idx}] = [2]int64{k, 1}
+	return k, true
 }
